@@ -529,8 +529,81 @@ where
 /// test the oracles themselves (O1/O2 against CPython): most of these are rejected by
 /// `dis`, in every way a stack/memo discipline can be broken, including MARKs consumed
 /// as ordinary operands. Independent of the generator under test.
+fn hostile_text(rng: &mut Rng) -> Vec<u8> {
+    const PIECES: [&[u8]; 40] = [
+        b"\\", b"\\x", b"\\x4", b"\\x41", b"\\xg1", b"\\u12", b"\\u1234", b"\\U0010ffff", b"\\U00110000", b"\\U1", b"'", b"\"", b"a", b"1",
+        b"0", b"-", b"+", b"_", b".", b"e", b"E", b"L", b" ", b"\t", b"inf", b"nan", b"Infinity", b"0x1", b"1_0", b"1__0", b"\xff", b"\x80",
+        b"\xc3\xa9", b"\xed\xa0\x80", b"\xf4\x90\x80\x80", b"\\777", b"\\8", b"\\\n", b"00", b"01",
+    ];
+    let k = rng.below(5) as usize;
+    let mut v = Vec::new();
+    for _ in 0..k {
+        v.extend_from_slice(PIECES[rng.below(PIECES.len() as u64) as usize]);
+    }
+    v
+}
+
+fn hostile_arg(rng: &mut Rng, kind: &str, out: &mut Vec<u8>) {
+    match kind {
+        "" => {}
+        "uint1" => out.push(rng.next() as u8),
+        "uint2" => out.extend_from_slice(&(rng.next() as u16).to_le_bytes()),
+        "int4" | "uint4" => {
+            let v: u32 = *rng.pick(&[0u32, 1, 0x7fff_ffff, 0x8000_0000, 0xffff_ffff, 3]);
+            out.extend_from_slice(&v.to_le_bytes());
+        }
+        "uint8" => {
+            let v: u64 = *rng.pick(&[0u64, 1, 5, 0x7fff_ffff_ffff_ffff, 0x8000_0000_0000_0000, u64::MAX]);
+            out.extend_from_slice(&v.to_le_bytes());
+        }
+        "float8" => out.extend_from_slice(&rng.next().to_be_bytes()),
+        "decimalnl_short" | "decimalnl_long" | "floatnl" | "stringnl_noescape" | "unicodestringnl" => {
+            out.extend(hostile_text(rng));
+            if rng.below(8) != 0 {
+                out.push(b'\n');
+            }
+        }
+        "stringnl" => {
+            const QS: [&[u8]; 3] = [b"'", b"\"", b""];
+            out.extend_from_slice(QS[rng.below(3) as usize]);
+            out.extend(hostile_text(rng));
+            out.extend_from_slice(QS[rng.below(3) as usize]);
+            if rng.below(8) != 0 {
+                out.push(b'\n');
+            }
+        }
+        "stringnl_noescape_pair" => {
+            out.extend(hostile_text(rng));
+            out.push(b'\n');
+            out.extend(hostile_text(rng));
+            if rng.below(8) != 0 {
+                out.push(b'\n');
+            }
+        }
+        _ => {
+            // length-prefixed payloads: prefix width by kind, length possibly wrong / negative / huge
+            let width = match kind {
+                "long1" | "string1" | "bytes1" | "unicodestring1" => 1,
+                "long4" | "string4" | "bytes4" | "unicodestring4" => 4,
+                _ => 8,
+            };
+            let payload = hostile_text(rng);
+            let n: u64 = match rng.below(6) {
+                0 => payload.len() as u64 + 1 + rng.below(300),
+                1 => 0x8000_0000,
+                2 => u64::MAX,
+                3 => 0,
+                _ => payload.len() as u64,
+            };
+            out.extend_from_slice(&n.to_le_bytes()[..width]);
+            out.extend_from_slice(&payload);
+        }
+    }
+}
+
 pub fn random_stream(rng: &mut Rng) -> Vec<u8> {
     use crate::optable::OPTABLE;
+    let hostile = rng.below(4) == 0;
     let n = 1 + rng.below(24) as usize;
     let mut out = Vec::new();
     let hot: [&str; 24] = [
@@ -548,6 +621,12 @@ pub fn random_stream(rng: &mut Rng) -> Vec<u8> {
         }
         out.push(row.code);
         let small = rng.below(4);
+        // one stream in four carries hostile arguments (bad escapes, odd literals, invalid UTF-8,
+        // length prefixes that do not match): this tests the O1 readers against CPython's
+        if hostile && rng.below(3) == 0 {
+            hostile_arg(rng, row.arg, &mut out);
+            continue;
+        }
         match row.arg {
             "" => {}
             "uint1" => out.push(small as u8),
